@@ -414,7 +414,7 @@ func c06Sponge(c *Ctx) {
 				for _, ins := range blk.Instrs {
 					if st, ok := ins.(*ssa.Store); ok {
 						at := b.Of(st.Addr, st)
-						if matches("iaddr(p1, bin<+>(ind<+1>(-1), 1))", at) && matches("makeslice<github.com/iotaledger/iota.go/trinary.Trits>(p2, p2)", b.Of(st.Val, st)) {
+						if matches("iaddr(p1, bin<+>(ind<+1>(-1), 1))", at) && matches("makeslice<[]int8>(p2, p2)", b.Of(st.Val, st)) {
 							fresh = true
 						}
 					}
